@@ -37,7 +37,7 @@ static void prop(Tape &t, Ctx &c) {
         } else {
             VF_CHECK(lst == NULL, "pemlist-set-on-error", "psPemCertBufToList failed (%d) but returned a list", rcl);
         }
-        leak.check();
+        C09_LEAK_CHECK(leak, "-");
     }
     {
         LeakScope leak("psX509ParseCertData");
@@ -60,7 +60,7 @@ static void prop(Tape &t, Ctx &c) {
         // As the in-tree caller sslLoadCert does: the chain head is freed by the caller on success and on
         // failure (certificates parsed before the failing one stay linked to it).
         psX509FreeCert(certs);
-        leak.check(fmt("rc=%d flags=%d twice=%d", rc, flags, (int) twice));
+        C09_LEAK_CHECK(leak, "rc=%d flags=%d twice=%d", rc, flags, (int) twice);
     }
     if (rc >= 0 && nok > 0) { c.count(pem ? "parsed.pem" : "parsed.der"); if (ncerts > 1) c.count("parsed.bundle"); }
     else c.count(pem ? "rejected.pem" : "rejected.other");
